@@ -153,20 +153,52 @@ class Ops(Suite):
                             {"op": "cutorder", "m": rng.randint(1, 3)},
                             {"op": "cuttip", "thre": rng.randint(0, 7)}]
                 for op in ops:
-                    out.append({"class": f"{shape}/{op['op']}", "tree": t, "op": op, "mapkind": rng.choice(["list", "dict", None])})
+                    case = {"class": f"{shape}/{op['op']}", "tree": t, "op": op, "mapkind": rng.choice(["list", "dict", None])}
+                    # a third of the operations act on a tree DERIVED (re-rooted / sorted copy) from a tree on which every query and cut has
+                    # been run before: the result depends on the tree given, not on what was asked of its ancestors
+                    if nn >= 3 and rng.random() < 0.34 and op["op"] not in ("cuttip",):
+                        case["derive"] = rng.choice(["sort", f"redirect:{rng.randrange(1, nn)}"])
+                        case["class"] += "/derived"
+                    out.append(case)
+                    if nn >= 4 and op["op"] in ("cutorder", "cutleave", "cuttype") and "derive" not in case:
+                        # the rules that ask nodes about their children (furcation order, tips): always also on a re-rooted copy
+                        out.append(dict(case, derive=f"redirect:{rng.randrange(1, nn)}", **{"class": case["class"] + "/derived"}))
         return out
 
     def run(self, case):
         from swcgeom.core.tree_utils import cut_tree, get_subtree, to_subtree
         from swcgeom.transforms import CutByFurcationOrder, CutByType, CutShortTipBranch
 
+        from swcgeom.core import Tree
+
         t = gen.make_tree(case["tree"])
+        n0 = case["tree"]["n"]
+        extra = {}
+        if case.get("derive"):
+            from swcgeom.core.tree_utils import redirect_tree, sort_tree
+
+            # ask the original tree everything first
+            with warnings.catch_warnings():
+                warnings.simplefilter("ignore")
+                CutByFurcationOrder(2)(t); CutByType(3)(t); CutShortTipBranch(thre=2)(t); t.get_branches(); t.get_tips(); t.get_furcations()
+                [(t.node(i).is_furcation(), t.node(i).is_tip(), len(t.node(i).children())) for i in range(n0)]
+            d = case["derive"]
+            t = sort_tree(t) if d == "sort" else redirect_tree(t, int(d.split(":")[1]))
+            extra["eff"] = {"pids": t.pid().tolist(), "types": t.type().tolist(), "xyz": t.xyz().astype(float).tolist()}
+        # identity tag by position (the radius), plus two columns beyond the seven standard ones
+        cols = {k: t.get_ndata(k).copy() for k in ["id", "type", "x", "y", "z", "pid"]}
+        cols["r"] = ((np.arange(n0) + 1) / 8).astype(np.float32)
+        cols["tag"] = (1000.0 + np.arange(n0)).astype(np.float32)
+        cols["level"] = ((np.arange(n0) * 7) % 5).astype(np.int32)
+        if case.get("derive"):
+            t.ndata["r"] = cols["r"]; t.ndata["tag"] = cols["tag"]; t.ndata["level"] = cols["level"]      # same (derived, queried) object
+        else:
+            t = Tree(n0, **cols)
         before = {k: t.get_ndata(k).copy() for k in t.keys()}
         op = case["op"]
         k = op["op"]
         mk = case.get("mapkind")
         om = [] if mk == "list" else ({} if mk == "dict" else None)
-        extra = {}
         if k == "subtree":
             y = get_subtree(t, op["n"], out_mapping=om)
             y2 = t.node(op["n"]).subtree()
@@ -202,7 +234,10 @@ class Ops(Suite):
         else:
             y = CutShortTipBranch(thre=op["thre"])(t)
         res = {"pid": y.pid().tolist(), "id": y.id().tolist(), "r": [float(v) for v in y.r()], "type": y.type().tolist(),
-               "xyz": y.xyz().astype(float).tolist(), "input_unchanged": bool(all(np.array_equal(before[c], t.get_ndata(c)) for c in before))}
+               "xyz": y.xyz().astype(float).tolist(), "input_unchanged": bool(all(np.array_equal(before[c], t.get_ndata(c)) for c in before)),
+               "keys": sorted(str(c) for c in y.keys()),
+               "tag": [float(v) for v in y.get_ndata("tag")] if "tag" in y.keys() else None,
+               "level": [int(v) for v in y.get_ndata("level")] if "level" in y.keys() else None}
         if om is not None and k in ("subtree", "tosub"):
             res["out_mapping"] = [int(om[i]) for i in range(len(om))] if isinstance(om, dict) else [int(v) for v in om]
         if k == "subtree" and op["n"] == 0 and case["tree"]["types"][0] == 1:
@@ -213,12 +248,21 @@ class Ops(Suite):
     def _mapping(self, case, res):
         return [int(round(v * 8)) - 1 for v in res["r"]]
 
+    def _tree(self, case, res):
+        """the tree the operation was applied to (the derived one when there is a derivation step)"""
+        t = case["tree"]
+        if isinstance(res, dict) and "eff" in res:
+            e = res["eff"]
+            t = dict(t, pids=e["pids"], types=e["types"], xyz=e["xyz"])
+            t["elen"] = [0 if p < 0 else int(round(sum(abs(a - b) for a, b in zip(e["xyz"][i], e["xyz"][p])))) for i, p in enumerate(e["pids"])]
+        return t
+
     def lines(self, case, res):
         if "exc" in res:
             return []
         op = dict(case["op"])
         k = op.pop("op")
-        t = case["tree"]
+        t = self._tree(case, res)
         a = f"pids={gen.ints(t['pids'])}"
         if k == "subtree":
             a += f" n={op['n']}"
@@ -237,7 +281,7 @@ class Ops(Suite):
         return [(f"{k} {a}", f"{gen.ints(res['pid']).replace('_', '')} / {gen.ints(self._mapping(case, res)).replace('_', '')}")]
 
     def oracle(self, case, res):
-        t, op = case["tree"], case["op"]
+        t, op = self._tree(case, res), case["op"]
         if "exc" in res:
             return [(f"{op['op']}-raises", f"{op} on pids={t['pids']} raised {res['exc']}: {res.get('msg')}")]
         out = []
@@ -256,6 +300,11 @@ class Ops(Suite):
                 out.append((f"{op['op']}-parent", f"{what}: new node {k} (old {o}) has parent {res['pid'][k]}, expected {want}")); break
             if res["type"][k] != t["types"][o] or res["xyz"][k] != [float(c) for c in t["xyz"][o]]:
                 out.append((f"{op['op']}-attrs", f"{what}: attributes of old node {o} changed")); break
+        # every per-node column survives with its node — the two extra columns as well
+        if res.get("tag") is None or res.get("level") is None:
+            out.append((f"{op['op']}-extra-column-dropped", f"{what}: the result has columns {res.get('keys')}; the input also had 'tag' and 'level'"))
+        elif res["tag"] != [1000.0 + o for o in m] or res["level"] != [(o * 7) % 5 for o in m]:
+            out.append((f"{op['op']}-extra-column", f"{what}: extra columns of the survivors are {res['tag'][:6]}… / {res['level'][:6]}…, their nodes had {[1000.0 + o for o in m][:6]}… / {[(o * 7) % 5 for o in m][:6]}…"))
         if "out_mapping" in res and res["out_mapping"] != m:
             out.append((f"{op['op']}-mapping", f"{what}: reported mapping {res['out_mapping']}, actual new→old {m}"))
         if res.get("node_subtree_same") is False:
